@@ -83,7 +83,10 @@ pub fn gen_program(r: &mut Rng, cfg: &mut Rng, big: bool) -> (Vec<Fact>, Vec<dm:
             let cp = if used.contains("?pv") && r.chance(1, 4) { "?pv".to_string() } else { format!("p{}", r.usize(np + 1)) };
             conc.push((pickc(r), cp, pickc(r)));
         }
-        let filt = if allow_filter && r.chance(1, 2) && !uv.is_empty() { vec![Filter { var: r.pick(&uv)[1..].to_string(), op: r.pick(&[">", "<", ">=", "<="]).to_string(), val: format!("{}", r.below(20)) }] } else { vec![] };
+        let filt = if allow_filter && r.chance(1, 2) && !uv.is_empty() {
+            if uv.len() >= 2 && r.chance(1, 4) { let a = r.pick(&uv)[1..].to_string(); let b = r.pick(&uv)[1..].to_string(); vec![Filter { var: a, op: r.pick(&["!=", "="]).to_string(), val: b }] }   // variable against variable (compared by identity)
+            else { vec![Filter { var: r.pick(&uv)[1..].to_string(), op: r.pick(&[">", "<", ">=", "<=", "=", "!="]).to_string(), val: format!("{}", r.below(20)) }] }
+        } else { vec![] };
         let mut rule = dm::Rule { prem, neg: vec![], conc, filt };
         if with_neg && ri == nrules - 1 && !uv.is_empty() {
             // one top negative stratum: the conclusion predicate occurs in no premise of any rule
